@@ -32,6 +32,13 @@ function program() {
     // recursion through an inline discriminated union that has the type itself as a variant, twice in one body
     Alias("Leaf", ObjT([Prop("kind", L("leaf")), Prop("v", P("number"))])),
     Alias("Tree", ObjT([Prop("kind", L("node")), Prop("left", U(Ref("Tree"), Ref("Leaf"))), Prop("right", U(Ref("Tree"), Ref("Leaf")))])),
+    // intersections with a named closed-object member that refers back to the intersection (the body of one is printed
+    // while the other is still in progress, in either order), and a plain named intersection
+    Alias("Base2", ObjT([Prop("id", P("string")), Prop("children", ArrT(Ref("Child2")), true)])),
+    Alias("Child2", I(Ref("Base2"), ObjT([Prop("extra", P("string"))]))),
+    Alias("Ext", I(Ref("Plain"), ObjT([Prop("b", P("number"))]))),
+    Alias("NodeA", ObjT([Prop("n", U(Ref("NodeB"), P("null")))])),
+    Alias("NodeB", I(Ref("NodeA"), ObjT([Prop("tag", L("b"))]))),
     // a named type that cannot be printed (Map) next to printable ones: the throw must not poison the context
     Alias("HasMap", ObjT([Prop("m", MapT(P("string"), P("number"))), Prop("plain", Ref("Plain"))])),
   ];
@@ -59,6 +66,10 @@ function program() {
     ["P20", ObjT([Prop("plain", Ref("Plain")), Prop("h", Ref("HasMap"))])],
     ["P21", Ref("Tree")],
     ["P22", ObjT([Prop("t", U(Ref("Tree"), Ref("Leaf"))), Prop("l", Ref("Leaf"), true)])],
+    ["P23", Ref("Base2")],
+    ["P24", Ref("Child2")],
+    ["P25", ObjT([Prop("e", Ref("Ext")), Prop("b", Ref("NodeB"), true)])],
+    ["P26", Ref("NodeA")],
     ["POverride", Ref("Override")],
   ];
   return { decls, parsers };
